@@ -128,6 +128,17 @@ const OTHER_ROUTES: [(&str, bool /*certainly unknown (must refuse)*/); 12] = [
     ("/index.html", true),
 ];
 
+const ODD_HEADERS: [(&str, &str); 8] = [
+    ("Accept-Encoding", "identity;q=0"),
+    ("Accept-Encoding", "*;q=0"),
+    ("Accept-Encoding", "gzip, br"),
+    ("Accept-Encoding", "compress, identity;q=0"),
+    ("Accept", "text/html"),
+    ("If-None-Match", "*"),
+    ("If-Modified-Since", "Sat, 01 Jan 2028 00:00:00 GMT"),
+    ("Range", "bytes=0-3"),
+];
+
 const METHODS: [&str; 7] = ["GET", "POST", "PUT", "DELETE", "HEAD", "PATCH", "OPTIONS"];
 
 #[derive(Clone, Copy, Debug, PartialEq, Eq, Hash)]
@@ -621,6 +632,7 @@ pub fn shard_run_grammar(prop: &str, tier: &str, seed: u64, replay_case: Option<
                     if !mine || !crate::http::HttpApp::expressible(&req) {
                         continue;
                     }
+                    let req = if gi % 6 == 5 { let (k, v) = ODD_HEADERS[(gi / 6) % ODD_HEADERS.len()]; req.header(k, v) } else { req };
                     let resp = fx.subj.http(&req);
                     cov.evaluations += 1;
                     out.executed += 1;
@@ -673,13 +685,25 @@ pub fn shard_run_grammar(prop: &str, tier: &str, seed: u64, replay_case: Option<
                     }
                 }
             }
-            let req = g.build(&fx, &mut rng);
+            let mut req = g.build(&fx, &mut rng);
             if !crate::http::HttpApp::expressible(&req) {
                 cov.count("not_expressible_in_process", 1);
                 continue;
             }
+            // legal but unusual request headers (content negotiation, conditional requests)
+            let odd = gi % 6 == 5;
+            if odd {
+                let (k, v) = ODD_HEADERS[(gi / 6) % ODD_HEADERS.len()];
+                req = req.header(k, v);
+            }
             out.executed += 1;
             let (resp, problem) = exec_and_judge(&mut fx, g, &req, &mut cov);
+            // such headers may legitimately change a status (e.g. 406): only the universal rules
+            // (no 5xx, state changes only on a 200 POST to an add route) are kept for them
+            let problem = if odd { problem.filter(|m| m.contains("server error") || m.contains("made the server fail") || m.contains("stored state changed")) } else { problem };
+            if odd {
+                cov.hit(format!("odd-header|status={}", resp.status));
+            }
             if cov.samples.is_empty() || (cov.samples.len() < 4 && gi % 997 == 3) {
                 cov.samples.push(json!({"request": req.describe(), "class": format!("{:?}", g.class()), "response_status": resp.status, "cache_control": resp.header("cache-control")}));
             }
